@@ -27,7 +27,7 @@ static var keyobj[MAXK];
 static var valobj[2];
 static var wrongkey, wrongval;
 /* home slot 0 modulo 5 and 11 (multiples of 55) interleaved with home = last slot (== -1 modulo 55): wrap-around from the third key on */
-static int64_t ikeys[MAXK] = { 0, 55, 54, 110, 109, 165, 220, 164, 275, 330, 219, 385 };
+static int64_t ikeys[MAXK] = { 0, 55, 54, 109, 110, 165, 220, 164, 275, 330, 219, 385 };
 static char skeys[MAXK][8];
 
 /* reference model: association lists for A and B */
@@ -61,6 +61,7 @@ static var mk_table(void) { return new_raw(Table, KT, VT); }
 
 static void del_table(var t, int managed) { if (managed) del(t); else del_raw(t); }
 
+static int lastq = -1, lastq_slot = -1;
 static void reset(void) {
   vf_led_err[0] = 0;
   TA = mk_table(); A_managed = 0;
@@ -68,6 +69,7 @@ static void reset(void) {
   memset(&MA, 0, sizeof MA); memset(&MB, 0, sizeof MB);
   MA.exists = 1;
   lastkind = "init";
+  lastq = -1; lastq_slot = -1;
 }
 
 static void cleanup(void) {
@@ -97,9 +99,12 @@ static size_t canon_one(var t_, char* buf, size_t cap) {
   return o;
 }
 
+/* lastq: light oracle: the last explicit query (get/mem of which key) is part of the state, so that
+                            ** "get(k1) ; set(k2) ; get(k1)" is a path of its own and not folded into "set(k2) ; get(k1)" */
 static size_t canon(char* buf, size_t cap) {
   size_t o = canon_one(TA, buf, cap);
   if (two) { o += snprintf(buf + o, cap - o, " B:"); o += canon_one(TB, buf + o, cap - o); }
+  if (lastq >= 0) o += snprintf(buf + o, cap - o, " q%d@%d", lastq, lastq_slot);
   return o;
 }
 
@@ -321,8 +326,8 @@ enum { OP_RESIZE0, OP_RESIZELEN, OP_RESIZEGROW, OP_COPY, OP_ASSIGN_EMPTY, OP_ASS
        OP_NMISC };
 
 static int alias_ops = 1;
-static int nops_total(void) { return 3 * K + OP_NMISC + (alias_ops ? 3 * K : 0) + (light ? 2 * K : 0); }
-static int query_base(void) { return 3 * K + OP_NMISC + (alias_ops ? 3 * K : 0); }
+static int nops_total(void) { return 3 * K + OP_NMISC + (alias_ops ? 6 * K : 0) + (light ? 2 * K : 0); }
+static int query_base(void) { return 3 * K + OP_NMISC + (alias_ops ? 6 * K : 0); }
 
 /* the key / value object stored inside the table for universe key k (NULL if absent) */
 static var stored_key(var t_, int k) {
@@ -342,7 +347,8 @@ static void opname(int op, char* buf, size_t cap) {
   if (op < 3 * K) { snprintf(buf, cap, "rem(k%d)", op - 2 * K); return; }
   if (op >= 3 * K + OP_NMISC) {
     int a = op - 3 * K - OP_NMISC, k = a % K;
-    snprintf(buf, cap, a < K ? "set(A, stored key object of k%d, 1)" : a < 2 * K ? "set(A, k%d, stored value object of another key)" : "rem(A, stored key object of k%d)", k);
+    snprintf(buf, cap, a < K ? "set(A, stored key object of k%d, 1)" : a < 2 * K ? "set(A, k%d, stored value object of another key)" : a < 3 * K ? "rem(A, stored key object of k%d)"
+      : a < 4 * K ? "mem(A, stored value object of k%d)" : a < 5 * K ? "get(A, stored value object of k%d)" : "mem/get(A, stored key object of k%d)", k);
     return;
   }
   static const char* nm[] = { "resize(0)", "resize(len)", "resize(2len+3)", "A=copy(A)", "A=assign(new,A)", "A=assign(nonempty,A)",
@@ -387,11 +393,17 @@ static int expect_fail(var e, var a1, var a2, var a3, const char* what, const ch
   return VF_OK;
 }
 
-static int apply(int op) {
+static int apply_inner(int op) {
   var e;
   char before[4096];
   if (light && op >= query_base()) {
     int a = op - query_base(), k = a % K;
+    /* the key queried last: only while that key is present does a stale answer have anything to return */
+    lastq = MA.present[k] ? a : -1;
+    /* ... and the slot the key sat in when it was asked for: two histories that end in the same layout but asked at different
+    ** moments (before / after the key was displaced) differ in what a position memo would hold */
+    lastq_slot = -1;
+    if (lastq >= 0) { struct Table* tt = TA; for (size_t i = 0; i < tt->nslots; i++) if (Table_Key_Hash(tt, i) && key_index(Table_Key(tt, i)) == k) lastq_slot = (int)i; }
     if (a < K) {
       lastkind = MA.present[k] ? "get-present" : "get-absent";
       volatile var got = NULL;
@@ -449,12 +461,44 @@ static int apply(int op) {
       if (e) { vf_violation(L("raises"), NULL, "set with a value object stored in the same table raised %s", vf_exc_name(e)); return VF_BAD; }
       MA.present[k] = 1; MA.val[k] = MA.val[other];
       return VF_OK;
-    } else {
+    } else if (a < 3 * K) {
       var sk = stored_key(TA, k); if (!sk) return VF_SKIP;
       lastkind = "rem-by-stored-key";
       e = VF_CATCH(rem(TA, sk));
       if (e) { vf_violation(L("raises"), NULL, "rem through the stored key object raised %s", vf_exc_name(e)); return VF_BAD; }
       MA.present[k] = 0;
+      return VF_OK;
+    } else if (a < 5 * K) {
+      /* the argument is a VALUE object living inside the table (only where it can serve as a key: same type). It denotes
+      ** the key equal to it, if the universe has one: the answer is the reference model's, not "it is in here somewhere" */
+      if (KT != VT) return VF_SKIP;
+      var sv = stored_val(TA, k); if (!sv) return VF_SKIP;
+      int ki = key_index(sv);
+      int present = ki >= 0 && MA.present[ki];
+      if (a < 4 * K) {
+        lastkind = "mem-by-stored-value";
+        volatile bool isin = false;
+        e = VF_CATCH(isin = mem(TA, sv));
+        if (e) { vf_violation(L("raises"), NULL, "mem with a stored value object raised %s", vf_exc_name(e)); return VF_BAD; }
+        if ((int)isin != present) { vf_violation(L("mem"), NULL, "mem(A, value object stored under key#%d) = %d, but a key equal to it is %s", k, (int)isin, present ? "present" : "absent"); return VF_BAD; }
+        return VF_OK;
+      }
+      lastkind = "get-by-stored-value";
+      volatile var got = NULL;
+      e = VF_CATCH(got = get(TA, sv));
+      if (present) {
+        if (e) { vf_violation(L("get-raises"), NULL, "get with a stored value object raised %s although a key equal to it is present", vf_exc_name(e)); return VF_BAD; }
+        if (val_of(got) != MA.val[ki]) { vf_violation(L("get-value"), NULL, "get(A, value object stored under key#%d) = %" PRId64 ", the key equal to it maps to %d", k, val_of(got), MA.val[ki]); return VF_BAD; }
+      } else if (e != KeyError) { vf_violation(L("get-absent"), NULL, "get with a stored value object equal to no present key gave %s, KeyError expected", vf_exc_name(e)); return VF_BAD; }
+      return VF_OK;
+    } else {
+      var sk = stored_key(TA, k); if (!sk) return VF_SKIP;
+      lastkind = "query-by-stored-key";
+      volatile bool isin = false; volatile var got = NULL;
+      e = VF_CATCH(isin = mem(TA, sk));
+      if (e || !isin) { vf_violation(L("mem"), NULL, "mem through the stored key object of key#%d: %s", k, e ? vf_exc_name(e) : "false"); return VF_BAD; }
+      e = VF_CATCH(got = get(TA, sk));
+      if (e || val_of(got) != MA.val[k]) { vf_violation(L("get-value"), NULL, "get through the stored key object of key#%d disagrees with the reference", k); return VF_BAD; }
       return VF_OK;
     }
   }
@@ -587,6 +631,12 @@ static int apply(int op) {
     return expect_fail(e, ClassError, ClassError, ClassError, "assign from an object that is not a container", before);
   }
   return VF_SKIP;
+}
+
+static int apply(int op) {
+  int r = apply_inner(op);
+  if (lastq >= 0 && !MA.present[lastq % K]) lastq = -1;
+  return r;
 }
 
 static int nontrivial(void) {
